@@ -162,6 +162,48 @@ func main() {
 		exit = 0
 		return
 	}
+	if *prop == "all" || strings.Contains(*prop, ",") {
+		// matrix mode (seed/refactoring cross-checks): one load, every listed property, finding IDs
+		// written to <findings-out>/<id>.json. Not used by registered checks.
+		var ids []string
+		if *prop == "all" {
+			for id := range props {
+				ids = append(ids, id)
+			}
+		} else {
+			ids = strings.Split(*prop, ",")
+		}
+		sort.Strings(ids)
+		os.MkdirAll(*jsonOut, 0o755)
+		for _, id := range ids {
+			p := props[id]
+			if p == nil {
+				continue
+			}
+			func() {
+				r := NewResult(p.ID)
+				var out []string
+				defer func() {
+					if e := recover(); e != nil {
+						out = append(out, fmt.Sprintf("LOST:internal panic: %v", e))
+					}
+					writeJSON(filepath.Join(*jsonOut, id+".json"), out)
+				}()
+				c.baseCounts(r)
+				p.Run(c, r)
+				for _, o := range r.Obls {
+					if o.Verdict == Finding || o.Verdict == Undecided {
+						out = append(out, o.ID()+" @ "+o.Pos+" :: "+o.Reason)
+					}
+				}
+				for _, l := range r.Lost {
+					out = append(out, "LOST:"+l)
+				}
+			}()
+		}
+		exit = 0
+		return
+	}
 	p := props[*prop]
 	if p == nil {
 		var ids []string
